@@ -124,6 +124,19 @@ def sql_contents(S, st):
     return {n: (u, frozenset(m)) for n, (u, m) in st.everything(return_metadata=True).items()}
 
 
+def orphan_tag_rows(S, st, path):
+    """tag rows whose entry is gone (they would be inherited by the next entry that reuses the row id)"""
+    if S.symbolic:
+        db = sqlmodel.DB[0]
+        ids = [r[0] for r in db.names]
+        return len([m for m in db.metadata if m[0] not in ids])
+    con = FailingConn.state["real_connect"](path)
+    try:
+        return con.execute("SELECT COUNT(*) FROM pyro_metadata WHERE object NOT IN (SELECT id FROM pyro_names)").fetchone()[0]
+    finally:
+        con.close()
+
+
 def ref_apply(S, ref, op, a):
     """reference map semantics, written from the statement"""
     name, prefix, regex, uri, safe, tags = a["name"], a["prefix"], a["regex"], a["uri"], a["safe"], a["tags"]
